@@ -450,6 +450,15 @@ BATCH_REDUCTIONS = {"mean", "sum", "std", "var", "product", "mean_axis", "sum_ax
               "norm_l1", "norm_l2", "norm_max", "norm", "quantile_axis_mut", "quantile_mut"}
 
 
+def _if_ancestors(root, node):
+    """the `If` nodes that enclose `node`"""
+    from .layout import with_parents
+    for n_, anc in with_parents(root):
+        if n_ is node:
+            return [a for a in anc if a.get("k") == "If"]
+    return []
+
+
 def rule_fitted(ctx):
     """A fitted scaler / whitener applies the statistics of the data it was *fitted* on: `transform` of a matrix is a
     function of the fitted offsets, scales and matrix and of each sample alone.  A statistic taken across the samples of
@@ -534,7 +543,12 @@ def rule_fitted(ctx):
             only_empty = cnd.get("k") == "MethodCall" and cnd["name"] == "is_empty" and peel_refs(cnd["recv"]).get("local") in whole
             if cnd.get("k") == "Binary" and cnd["op"] == "==" and any(z.get("k") == "MethodCall" and z["name"] in ("nrows", "len", "len_of", "nsamples", "ncols") and peel_refs(z["recv"]).get("local") in whole for z in walk(cnd)) and any(peel_refs(s_).get("k") == "Lit" and str(peel_refs(s_).get("v")).rstrip("usize_") == "0" for s_ in (cnd["l"], cnd["r"])):
                 only_empty = True
-            if not only_empty and fn_file(fn).endswith("linear_scaling.rs"):
+            # a branch that rewrites the input in place before handing it back (a fast path over `as_slice_mut()`) returns the
+            # scaled input, not the input as it is
+            MUTS = ("as_slice_mut", "as_slice_memory_order_mut", "iter_mut", "mapv_inplace", "map_inplace", "columns_mut", "rows_mut", "axis_iter_mut", "view_mut", "row_mut", "column_mut", "outer_iter_mut", "par_mapv_inplace", "assign", "fill")
+            cond_and_then = [y["c"], y["then"]] + [a_["c"] for a_ in _if_ancestors(fn["body"], y)]
+            rewritten = any(z.get("k") == "MethodCall" and z["name"] in MUTS and peel_refs(z["recv"]).get("local") in whole for e_ in cond_and_then for z in walk(e_))
+            if not only_empty and not rewritten and fn_file(fn).endswith("linear_scaling.rs"):
                 unscaled = (y, cnd)
         if unscaled and not bad:
             res.violate("%s : input-returned-unscaled" % key, "`%s`: the input is returned as it is under a condition other than `x.is_empty()`: the steps after the per-column pass (the map onto the requested range) are skipped for non-empty data" % r.e(unscaled[1])[:60], fn_loc(fn, unscaled[0].get("ln")))
